@@ -375,16 +375,16 @@ func TestCheck(t *testing.T) {
 		return
 	}
 	// bounds: up to nFull every key repetition pattern x every failing kind; up to
-	// nLean only the gated failing kind (a wrong signature); thorough adds n=6 for
-	// distinct keys and three one-repeated-pair patterns.
+	// nLean only the gated failing kind (a wrong signature); beyond that selected
+	// key patterns only (quick: n=5, thorough: n=6).
 	nFull := vk.Pick(r, 4, 5)
 	nLean := vk.Pick(r, 4, 5)
 	nSel := vk.Pick(r, 5, 6)
 	kindsFull := []int{ms.SigWrong, ms.SigMalformed, ms.SigZeroR}
 	kindsLean := []int{ms.SigWrong}
 	// selected patterns beyond nLean: n=5 (quick) distinct keys and every single
-	// repeated pair; n=6 (thorough) distinct keys and three repeated pairs.
-	selected := map[string]bool{"[0 1 2 3 4 5]": true, "[0 0 1 2 3 4]": true, "[0 1 2 3 4 4]": true, "[0 1 2 3 4 0]": true}
+	// repeated pair; n=6 (thorough) distinct keys.
+	selected := map[string]bool{"[0 1 2 3 4 5]": true}
 	for _, kp := range ms.KeyPatterns(5) {
 		if ms.NumIDs(kp) >= 4 {
 			selected[fmt.Sprint(kp)] = true
